@@ -229,7 +229,22 @@ func (w *world) runAccess(x *consumer, ctx context.Context) {
 	x.inCall = true
 	err := w.rc.Access(ctx, func(cbCtx context.Context, v *val) error {
 		rc := w.rcOfVal(v)
-		inv := &accessInv{n: len(x.invs) + 1, rc: rc, ctx: cbCtx, start: c.Tick()}
+		now := c.Tick()
+		// the resolver may have handed out this pointer more than once (equal
+		// replacement): if every such result has been released, which of them the
+		// callback was given is not observable; take the one that explains it best
+		shared := false
+		if rc != nil && rc.rel > 0 {
+			for _, o := range w.calls {
+				if o != rc && o.v == v && o.returned != 0 && (v != nil || o.zero) {
+					shared = true
+					if o.rel > 0 && w.invalidated(o, now) && !w.invalidated(rc, now) {
+						rc = o
+					}
+				}
+			}
+		}
+		inv := &accessInv{n: len(x.invs) + 1, rc: rc, ctx: cbCtx, start: now, shared: shared}
 		x.invs = append(x.invs, inv)
 		x.cbRunning = inv
 		defer func() {
@@ -282,7 +297,7 @@ func (w *world) runAccess(x *consumer, ctx context.Context) {
 		last := x.invs[len(x.invs)-1]
 		if err == last.err {
 			// the callback's own result: its value must not have been dropped before the callback returned
-			if last.rc != nil && last.rc.rel > 0 && last.rc.relAt < last.end {
+			if last.rc != nil && !last.shared && last.rc.rel > 0 && last.rc.relAt < last.end {
 				c.Fail("C10.A3.result-of-invalidated-invocation", "Access returned the result of invocation %d although its value %d had been dropped (release function ran) before that invocation returned", last.n, last.rc.n)
 			}
 			return
